@@ -35,6 +35,17 @@ INVALID_SHAPES = ["%d +", "(%d", "%d %d", "x%d ==", "%d )", "lambda %d:",
                   "%d if", "not", "%d..", "[%d", "a%d b%d"]
 
 
+def make(source, strict, via="option"):
+    """A template compiled in the given mode, chosen by the constructor
+    option or by the attribute of a template class."""
+    from chameleon import PageTemplate
+    if via == "class":
+        cls = type("Strict" if strict else "Lenient", (PageTemplate,),
+                   {"strict": strict})
+        return cls(source)
+    return PageTemplate(source, strict=strict)
+
+
 def env_for(case, log):
     env = values.env(case["bindings"])
     rec, boom = exprs.make_callables(log)
@@ -58,7 +69,7 @@ class Valid(Part):
     def one(self, case, src, strict):
         from chameleon import PageTemplate
         log = []
-        o = run(PageTemplate, src, strict=strict)
+        o = run(make, src, strict, "class" if len(src) % 3 == 0 else "option")
         if not o.ok:
             return ("compile-exc", o.exc_name), log
         o = run(o.value.render, **env_for(case, log))
@@ -167,7 +178,18 @@ def planted(draw):
                 # operand of an expression type that takes an expression
                 cont[key] = ["prefix", wrap, ["invalid", text, j]]
         texts.append({"text": text, "alt": as_alt})
+    # constant conditions (the idiom for commenting markup out): what they
+    # guard is still part of the template
+    for el in elems(nodes):
+        st_ = el["stmts"]
+        if "condition" not in st_ and "case" not in st_ and \
+                draw(st.integers(0, 5)) == 0:
+            st_["condition"] = ["const", draw(st.sampled_from(
+                ["False", "None", "0", "''", "False", "0.0", "[]", "True",
+                 "1"]))]
     return {"nodes": nodes, "bindings": case["bindings"], "planted": texts,
+            # how the mode is chosen: constructor option or class attribute
+            "via": draw(st.sampled_from(["option", "option", "class"])),
             "eol": draw(st.sampled_from(["\n", "\n", "\r\n", "\r"]))}
 
 
@@ -255,7 +277,8 @@ class Planted(Part):
         detail = {"source": src, "bindings": case["bindings"],
                   "planted": case["planted"]}
         # --- strict
-        o = run(PageTemplate, given, strict=True)
+        via = case.get("via", "option")
+        o = run(make, given, True, via)
         if o.ok:
             return Mismatch("planted:strict accepted an invalid expression",
                             detail)
@@ -274,7 +297,7 @@ class Planted(Part):
             return Mismatch("planted:strict " + why, dict(
                 detail, token=tok, offset=off, eol=case.get("eol")))
         # --- non-strict
-        o = run(PageTemplate, given, strict=False)
+        o = run(make, given, False, via)
         if not o.ok:
             return Mismatch("planted:non-strict construction raises " +
                             o.exc_name, dict(detail, outcome=o.brief()))
